@@ -41,7 +41,9 @@ def loop_roles(program):
     loop = nth_loop(fi.node, 0)
     if loop is None:
         raise Undecided("multiwalk no longer has a `while` loop: the loop contract has nothing to attach to")
-    names = [n.id for n in ast.walk(loop.test) if isinstance(n, ast.Name)]
+    # the locals the condition READS (names it binds itself - a walrus target, comprehension variables - are not loop state)
+    bound = {n.id for n in ast.walk(loop.test) if isinstance(n, ast.Name) and isinstance(n.ctx, ast.Store)}
+    names = sorted({n.id for n in ast.walk(loop.test) if isinstance(n, ast.Name) and isinstance(n.ctx, ast.Load)} - bound)
     if len(names) != 1:
         raise Undecided("multiwalk: the loop condition does not test exactly one local (%r)" % names)
     roles = {"unfinished": names[0], "yielded": None, "fetcher": None}
